@@ -317,7 +317,7 @@ def gen_env_group(rng, idx, allow=("linear", "neighbors", "bandit", "tagged", "s
         elif o == "noise" and kind in ("linear", "neighbors"):
             ops.append(["noise", {"seed": rng.randrange(1, 9)}])
         elif o == "params":
-            ops.append(["params", {"params": {"p": rng.randrange(5)}}])
+            ops.append(["params", {"params": {"p": rng.choice([0, 1, 2, "\u00fc\u6587", "x"])}}])
         elif o == "batch" and not any(x[0] == "batch" for x in ops):
             ops.append(["batch", {"batch_size": 1 + rng.randrange(3)}])
         elif o == "reservoir" and not any(x[0] == "batch" for x in ops):
@@ -345,7 +345,7 @@ def gen_learner(rng, idx):
     if k == "ucb":
         return ["ucb", {"seed": rng.randrange(1, 9)}]
     if k == "counter":
-        return ["counter", {"k": 1 + rng.randrange(4), "tag": f"c{idx}"}]
+        return ["counter", {"k": 1 + rng.randrange(4), "tag": f"c{idx}" + ("\u00e9" if rng.random() < 0.3 else "")}]
     if k == "pmf":
         return ["pmf", {"tag": f"p{idx}"}]
     if k == "kwargs":
@@ -405,7 +405,8 @@ def gen_spec(rng, max_groups=3, small=False, flavours=(("sim", 5), ("logged", 2)
             "evaluators": evals,
             "seed": weighted(rng, [(1, 2), (rng.randrange(2, 99), 1)]),
             "quiet": rng.random() < 0.8,
-            "description": weighted(rng, [(None, 2), ("sim", 1)])}
+            # non-ASCII text ends up in the transaction log (description, params, tags)
+            "description": weighted(rng, [(None, 2), ("sim", 1), ("d\u00e9scr \u65e5\u672c \U0001F600", 1)])}
     if rng.random() < 0.6:
         spec["shape"] = "product"
         spec["default_evaluator"] = len(spec["evaluators"]) == 1 and spec["evaluators"][0][0] == "seqcb" and rng.random() < 0.2
